@@ -77,6 +77,8 @@ def _summary(hard, corr, name, none=False):
             s["wt"] = z3.IntVal(1)
             h.requires("no_dictionary_so_its_size_is_the_number_of_contests", ndict.t == C.n)
             d = None
+        # scenario for the paths that leave the subset: non-monotone weights, a contest whose margin is exactly 0
+        h.default_replay = (lambda ev: {"target": "verif_replays:national_summary_weights_replay", "args": [bool(corr)], "check": "result['exc'] is None and result['ok']"}) if hard else (lambda ev: {"target": "verif_replays:national_summary_function", "args": [bool(corr), bool(hard)], "check": "result['exc'] is None and result['lower'] <= result['pred'] <= result['upper']"})
         kind, res = h.call_method(self, "get_national_summary_estimates", d, base, alpha)
         wrong = ndict.t != C.n
         rps = lambda ev: {"target": "verif_replays:national_summary_dict_size_replay", "args": [bool(corr), bool(hard)], "check": "result['exc'] is None and result['ok']"}  # noqa: E731
